@@ -96,6 +96,10 @@ def check_characterize(ctx, case):
             ctx.fail("characterize returns a {} although no candidate accepts {!r}".format(type(ent).__name__, wd), case)
         elif type(ent) not in cands or not ent.is_valid():
             ctx.fail("characterize returns a {} which is not an accepting candidate".format(type(ent).__name__), case)
+        elif type(ent) is not accepting[0]:
+            ctx.fail("characterize returns a {} although {} comes first among the candidates that accept {!r} (the "
+                     "search takes the first valid subclass, whatever was characterised before)".format(
+                         type(ent).__name__, accepting[0].__name__, wd), case)
         got = str(cands.index(type(ent))) if type(ent) in cands else "x"
     except RuntimeError as e:
         got = "none"
